@@ -5,6 +5,7 @@ import (
 	"errors"
 	"fmt"
 	"sort"
+	"strings"
 	"sync"
 	"time"
 
@@ -86,9 +87,30 @@ func runC20(c *Ctx) error {
 		druns[i] = TD.NewRun("decorator-conformance", nil)
 		druns[i].Key = fmt.Sprintf("decorator-conformance/%d", i)
 	}
-	Parallel(nd2, func(i int) { subdecRun(druns[i], c.SubRng(1000+i), i%3 == 0) })
+	Parallel(nd2, func(i int) {
+		if c.Only == "" || strings.HasPrefix("decorator-conformance", c.Only) {
+			subdecRun(druns[i], c.SubRng(1000+i), i%3 == 0)
+		}
+	})
 	c.AddStat("decorator_conformance_runs", nd2)
+	subdecReplayAll(c, TD)
 	return nil
+}
+
+// subdecReplayAll replays the schedules TLC sampled from SubDecorator.tla (specification -> implementation).
+func subdecReplayAll(c *Ctx, TD *tr.Trace) {
+	ws := subdecSchedules()
+	sruns := make([]*tr.Run, len(ws))
+	for i := range ws {
+		sruns[i] = TD.NewRun("decorator-schedule", nil)
+		sruns[i].Key = fmt.Sprintf("decorator-schedule/%v", ws[i])
+	}
+	Parallel(len(ws), func(i int) {
+		if c.Only == "" || strings.HasPrefix("decorator-schedule", c.Only) {
+			subdecReplay(sruns[i], ws[i])
+		}
+	})
+	c.AddStat("decorator_schedules_replayed", len(ws))
 }
 
 // ------------------------------------------------------------------ delay.Publisher
